@@ -424,7 +424,7 @@ func (vfs *MemFS) Mkdir(name string, perm fs.FileMode) error {
 		return &fs.PathError{Op: op, Path: "", Err: vfs.err.NoSuchDir}
 	}
 
-	parent, _, pi, err := vfs.searchNode(name, slmEval)
+	parent, _, pi, err := vfs.searchNode(name, slmLstat)
 	if !vfs.isNotExist(err) || !pi.IsLast() {
 		return &fs.PathError{Op: op, Path: name, Err: err}
 	}
